@@ -65,6 +65,30 @@ def all_succs(term):
     return out
 
 
+def subst_types(x, mapping):
+    """Simultaneous substitution of generic parameters (type and const) in a MIR fragment: returns a new structure."""
+    if isinstance(x, dict):
+        if x.get("k") in ("param", "cparam") and x.get("n") in mapping and set(x.keys()) <= {"k", "n", "s"}:
+            return copy.deepcopy(mapping[x["n"]])
+        return {k: subst_types(v, mapping) for k, v in x.items()}
+    if isinstance(x, list):
+        return [subst_types(v, mapping) for v in x]
+    return x
+
+
+def generic_mapping(callee, targs):
+    """callee generic name -> argument type JSON, or None when the arities differ; {} when the arguments are the callee's own parameters."""
+    gs = [g for g in callee.get("generics", []) if g.get("kind") in ("type", "const")]
+    if len(gs) != len(targs):
+        return None
+    m = {}
+    for g, t in zip(gs, targs):
+        if t.get("k") in ("param", "cparam") and t.get("n") == g["n"]:
+            continue
+        m[g["n"]] = t
+    return m
+
+
 def identity_generics(callee, targs):
     gs = [g for g in callee.get("generics", []) if g.get("kind") in ("type", "const")]
     if len(gs) != len(targs):
@@ -105,9 +129,10 @@ def inline_calls(db, body, pred, depth=3):
             if cb is None or cb["kind"] not in ("Fn", "AssocFn") or cb["key"] == body["key"] or cb["key"] in chain:
                 continue
             targs = [a for a in (t["f"].get("res_args") if t["f"].get("res") and db.by_path.get(t["f"]["res"]) is cb else t["f"].get("args", [])) if a.get("k") != "region"]
-            if not identity_generics(cb, targs) or not pred(cb, t, chain):
+            gm = generic_mapping(cb, targs)
+            if gm is None or not pred(cb, t, chain):
                 continue
-            cm = copy.deepcopy(cb["mir"])
+            cm = subst_types(cb["mir"], gm) if gm else copy.deepcopy(cb["mir"])
             if len(t["args"]) != cm["arg_count"]:
                 continue
             off_l, off_b = len(locs), len(blocks)
